@@ -190,7 +190,7 @@ def r2_search_order(ctx):
     rd = ctx.rd(f)
     # the main loop: for dpath in candidate_dpaths
     loops = [n for n in g.nodes if n.kind == 'for' and not n.dup and not any(fr.kind == 'loop' for fr in n.frames) and
-             any(_is_call_to(c, 'check_dpath') for s in n.ast.body for c in ast.walk(s) if isinstance(c, ast.Call))]
+             any(_is_call_to(c, ctx.func(CHK).node.name) for s in n.ast.body for c in ast.walk(s) if isinstance(c, ast.Call))]
     need(len(loops) == 1, 'C17.R2: the search loop over the candidate directories was not recognised')
     head = loops[0]
     loop = head.ast
@@ -232,7 +232,7 @@ def r2_search_order(ctx):
     # first statement of an iteration: the plain directory check on the loop variable
     bi = [b for b in head.nsucc() if b.kind == 'branch' and b.attrs['polarity'] == 'iter'][0]
     first = [x for x in bi.nsucc()]
-    ok = len(first) == 1 and first[0].kind == 'stmt' and isinstance(first[0].ast, ast.Assign) and _is_call_to(first[0].ast.value, 'check_dpath') and \
+    ok = len(first) == 1 and first[0].kind == 'stmt' and isinstance(first[0].ast, ast.Assign) and _is_call_to(first[0].ast.value, ctx.func(CHK).node.name) and \
         first[0].ast.value.args and is_name(first[0].ast.value.args[0], loop.target.id if isinstance(loop.target, ast.Name) else None)
     rep.ob('C17.R2', ctx.loc(f, loop.body[0]), 'the directory itself is checked first', ok,
            'every iteration starts with check_dpath(<search directory>)' if ok else 'an indirection (editable finder, egg-link) is consulted before the directory itself', anchor=SYS)
